@@ -212,10 +212,11 @@ func (n *lcNotifier) RegisterConfirmationsNtfn(ctx context.Context,
 	opts ...lndclient.NotifierOption) (chan *chainntnfs.TxConfirmation,
 	chan error, error) {
 
+	owner := n.owner(pkScript)
 	n.mu.Lock()
 	defer n.mu.Unlock()
 	r := &lcReg{
-		seq: len(n.regs), acct: n.env.curKey, conf: true, txid: *txid,
+		seq: len(n.regs), acct: owner, conf: true, txid: *txid,
 		script: append([]byte(nil), pkScript...), ctx: ctx,
 		confCh: make(chan *chainntnfs.TxConfirmation),
 	}
@@ -227,15 +228,27 @@ func (n *lcNotifier) RegisterSpendNtfn(ctx context.Context,
 	outpoint *wire.OutPoint, pkScript []byte,
 	heightHint int32) (chan *chainntnfs.SpendDetail, chan error, error) {
 
+	owner := n.owner(pkScript)
 	n.mu.Lock()
 	defer n.mu.Unlock()
 	r := &lcReg{
-		seq: len(n.regs), acct: n.env.curKey, op: *outpoint,
+		seq: len(n.regs), acct: owner, op: *outpoint,
 		script: append([]byte(nil), pkScript...), ctx: ctx,
 		spendCh: make(chan *chainntnfs.SpendDetail),
 	}
 	n.regs = append(n.regs, r)
 	return r.spendCh, make(chan error), nil
+}
+
+// owner attributes a registration to the account whose script it watches
+// (handlers of different accounts may register concurrently).
+func (n *lcNotifier) owner(pkScript []byte) int {
+	n.env.scriptMu.Lock()
+	defer n.env.scriptMu.Unlock()
+	if id := n.env.acctOfScript(pkScript); id != 0 {
+		return id
+	}
+	return n.env.curKey
 }
 
 // liveRegs returns the live registrations of one account in registration
@@ -656,6 +669,7 @@ type lcEnv struct {
 
 	barrier    *lcBarrier
 	handlerErr map[int]error
+	scriptMu   sync.Mutex
 }
 
 func (e *lcEnv) inBatch(k int) bool {
